@@ -65,8 +65,11 @@ func parseLoadFile94(reader io.Reader, coresize Address) (WarriorData, error) {
 		// valid instructions need exactly 5 fields
 		// only other option is "ORG" pseudo opcode with exactly 1 arguments
 		if len(fields) != 5 {
-			// empty line
+			// empty line (a line of commas only is not empty)
 			if len(fields) == 0 {
+				if strings.TrimSpace(lower) != "" {
+					return WarriorData{}, fmt.Errorf("line %d: no instruction on this line", lineNum)
+				}
 				continue
 			}
 
@@ -326,8 +329,11 @@ func parseLoadFile88(reader io.Reader, coresize Address) (WarriorData, error) {
 		// valid instructions need exactly 5 fields
 		// only other option is "END" pseudo opcode with 0 or 1 arguments
 		if len(fields) != 5 {
-			// empty line
+			// empty line (a line of commas only is not empty)
 			if len(fields) == 0 {
+				if strings.TrimSpace(lower) != "" {
+					return WarriorData{}, fmt.Errorf("line %d: no instruction on this line", lineNum)
+				}
 				continue
 			}
 
